@@ -157,6 +157,19 @@ type probeDialect struct {
 }
 
 const probeStatic = `
+// guarded hands f the text as a window into a larger array and reports a write outside (or inside) the window.
+func guarded(s string, f func([]byte) error) error {
+	backing := make([]byte, len(s)+3)
+	for i := range backing { backing[i] = 0xA5 }
+	copy(backing[1:], s)
+	before := string(backing)
+	err := f(backing[1 : 1+len(s)])
+	if string(backing) != before {
+		return fmt.Errorf("UnmarshalText wrote to the caller's buffer (the text was a window into a larger array)")
+	}
+	return err
+}
+
 func pattern(ctype string, size int, j int) []byte {
 	b := make([]byte, size)
 	for k := range b {
@@ -367,7 +380,7 @@ func writeProbe(root string, batch []XDialect, pkgDirs []string) {
 				rs = append(rs, fmt.Sprintf("%q", r))
 			}
 			fmt.Fprintf(&b, "\t\t{\n\t\t\tres, acc := probeEnum(enumFns{\n\t\t\t\tmarshal: func(v uint64) (string, string, error) { e := p%d.%s(v); t, err := e.MarshalText(); return string(t), e.String(), err },\n\t\t\t\traw: func(v uint64) ([]byte, error) { return p%d.%s(v).MarshalText() },\n", i, n, i, n)
-			fmt.Fprintf(&b, "\t\t\t\tunmarshal: func(s string) (uint64, error) { var e p%d.%s; err := e.UnmarshalText([]byte(s)); d := p%d.%s(0xFFFF0F); derr := d.UnmarshalText([]byte(s)); if err == nil && (derr != nil || d != e) { return uint64(d), fmt.Errorf(\"result depends on the previous value of the destination: %%d vs %%d\", uint64(e), uint64(d)) }; return uint64(e), err },\n\t\t\t}, []uint64{%s}, []string{%s})\n", i, n, i, n, strings.Join(vs, ","), strings.Join(rs, ","))
+			fmt.Fprintf(&b, "\t\t\t\tunmarshal: func(s string) (uint64, error) { var e p%d.%s; err := guarded(s, e.UnmarshalText); d := p%d.%s(0xFFFF0F); derr := d.UnmarshalText([]byte(s)); if err == nil && (derr != nil || d != e) { return uint64(d), fmt.Errorf(\"result depends on the previous value of the destination: %%d vs %%d\", uint64(e), uint64(d)) }; return uint64(e), err },\n\t\t\t}, []uint64{%s}, []string{%s})\n", i, n, i, n, strings.Join(vs, ","), strings.Join(rs, ","))
 			fmt.Fprintf(&b, "\t\t\tenums[%q] = res\n\t\t\trejects[%q] = acc\n\t\t}\n", n, n)
 		}
 		b.WriteString("\t\tr[\"Enums\"] = enums\n\t\tr[\"Rejects\"] = rejects\n\t\tout = append(out, r)\n\t}\n")
@@ -813,6 +826,34 @@ func TestC18Generator(t *testing.T) {
 				if !bytes.Equal(b1, t2[name]) {
 					fail(d, "generating twice (the second time with the local time zone 26 hours ahead of the first) gives different contents for %s", name)
 				}
+			}
+			// a later revision of the definition (its last message withdrawn) converted in the place where the package of
+			// the first revision already lies: either that is refused, or what lies there afterwards is the package of
+			// the later revision - the same files a conversion in an empty place gives
+			if len(d.Files[0].Msgs) >= 2 {
+				d2 := d
+				d2.Files = append([]XFile(nil), d.Files...)
+				top := d2.Files[0]
+				top.Msgs = append([]XMsg(nil), top.Msgs[:len(top.Msgs)-1]...)
+				d2.Files[0] = top
+				regen := filepath.Join(root, caseDir, fmt.Sprintf("again%d", i))
+				if _, rerr := convertIn(d2, regen, nil); rerr == nil {
+					fresh, ferr := convertIn(d2, filepath.Join(root, caseDir, fmt.Sprintf("fresh%d", i)), nil)
+					if ferr != nil {
+						fail(d2, "valid definition refused: %v", ferr)
+					}
+					t3, e3 := readTree(filepath.Join(regen, d2.PkgName()))
+					t4, e4 := readTree(fresh)
+					same := e3 == nil && e4 == nil && len(t3) == len(t4)
+					for name, b := range t4 {
+						same = same && bytes.Equal(b, t3[name])
+					}
+					if !same {
+						fail(d2, "a later revision of the definition (message %s withdrawn) was converted where the package of the first revision lay, without an error: the directory now holds %d files, a conversion of the later revision in an empty place gives %d - files of the withdrawn definitions are still part of the package", d.Files[0].Msgs[len(d.Files[0].Msgs)-1].Name, len(t3), len(t4))
+					}
+					os.RemoveAll(filepath.Join(root, caseDir, fmt.Sprintf("fresh%d", i)))
+				}
+				rec.Class("later-revision-converted-over-an-existing-package", 1)
 			}
 			os.RemoveAll(filepath.Join(root, caseDir, fmt.Sprintf("again%d", i)))
 			if i == 0 {
